@@ -608,7 +608,10 @@ spifconf_shell_expand(spif_charptr_t s)
                       return (spif_charptr_t) NULL;
                   }
                   *(--tmp1) = 0;
-                  Command = spifconf_shell_expand(Command);
+                  if (!spifconf_shell_expand(Command)) {
+                      /* The argument text could not be expanded; the function gets NULL. */
+                      FREE(Command);
+                  }
                   Output = (spif_charptr_t) (builtins[k].ptr) (Command);
                   FREE(Command);
                   if (Output) {
@@ -642,7 +645,9 @@ spifconf_shell_expand(spif_charptr_t s)
                       /* No closing backquote; stay on the terminator. */
                       pbuff--;
                   }
-                  Command = spifconf_shell_expand(Command);
+                  if (!spifconf_shell_expand(Command)) {
+                      FREE(Command);
+                  }
                   Output = builtin_exec(Command);
                   FREE(Command);
                   if (Output) {
